@@ -3,7 +3,9 @@ package main
 import (
 	"bytes"
 	stdjson "encoding/json"
+	"io"
 	"strings"
+	"testing/iotest"
 
 	"github.com/segmentio/encoding/json"
 )
@@ -76,9 +78,78 @@ func jConsumers(b []byte) {
 	// output of a MarshalJSON method
 	impl = append(impl, try(func() error { _, err := json.Marshal(segMarshaler{b}); return err }))
 	orc = append(orc, try(func() error { _, err := stdjson.Marshal(segMarshaler{b}); return err }))
+	// RawMessage as a map value next to valid ones, under a key that sorts first and under one that sorts last
+	for _, k := range []string{"a", "z"} {
+		impl = append(impl, try(func() error {
+			_, err := json.Marshal(map[string]json.RawMessage{k: json.RawMessage(b), "m": json.RawMessage("1"), "n": json.RawMessage("[]")})
+			return err
+		}))
+		orc = append(orc, try(func() error {
+			_, err := stdjson.Marshal(map[string]stdjson.RawMessage{k: stdjson.RawMessage(b), "m": stdjson.RawMessage("1"), "n": stdjson.RawMessage("[]")})
+			return err
+		}))
+	}
+	// RawMessage through an Encoder whose options were changed (the options must not switch the syntax check off)
+	for opt := 0; opt < 3; opt++ {
+		impl = append(impl, try(func() error {
+			e := json.NewEncoder(io.Discard)
+			switch opt {
+			case 0:
+				e.SetEscapeHTML(false)
+			case 1:
+				e.SetIndent(">", " ")
+				e.SetEscapeHTML(true)
+			case 2:
+				e.SetSortMapKeys(false)
+				e.SetEscapeHTML(false)
+			}
+			return e.Encode(struct {
+				A int
+				R json.RawMessage
+				M map[string]json.RawMessage
+			}{1, json.RawMessage(b), map[string]json.RawMessage{"k": json.RawMessage(b)}})
+		}))
+		orc = append(orc, try(func() error {
+			e := stdjson.NewEncoder(io.Discard)
+			switch opt {
+			case 0, 2:
+				e.SetEscapeHTML(false)
+			case 1:
+				e.SetIndent(">", " ")
+				e.SetEscapeHTML(true)
+			}
+			return e.Encode(struct {
+				A int
+				R stdjson.RawMessage
+				M map[string]stdjson.RawMessage
+			}{1, stdjson.RawMessage(b), map[string]stdjson.RawMessage{"k": stdjson.RawMessage(b)}})
+		}))
+	}
 	// Decoder framing of the first value
 	impl = append(impl, try(func() error { var r json.RawMessage; return json.NewDecoder(bytes.NewReader(b)).Decode(&r) }))
 	orc = append(orc, try(func() error { var r stdjson.RawMessage; return stdjson.NewDecoder(bytes.NewReader(b)).Decode(&r) }))
+	// Decoder framing when the reader delivers the document one byte at a time (every prefix is seen as "input so far")
+	// and in two pieces cut at a rotating position
+	impl = append(impl, try(func() error {
+		var r json.RawMessage
+		return json.NewDecoder(iotest.OneByteReader(bytes.NewReader(b))).Decode(&r)
+	}))
+	orc = append(orc, try(func() error {
+		var r stdjson.RawMessage
+		return stdjson.NewDecoder(iotest.OneByteReader(bytes.NewReader(b))).Decode(&r)
+	}))
+	cut := 0
+	if len(b) > 0 {
+		cut = (len(b)*7 + 3) % len(b)
+	}
+	impl = append(impl, try(func() error {
+		var r any
+		return json.NewDecoder(io.MultiReader(bytes.NewReader(b[:cut]), bytes.NewReader(b[cut:]))).Decode(&r)
+	}))
+	orc = append(orc, try(func() error {
+		var r any
+		return stdjson.NewDecoder(io.MultiReader(bytes.NewReader(b[:cut]), bytes.NewReader(b[cut:]))).Decode(&r)
+	}))
 	// interface{} target (full decode)
 	impl = append(impl, try(func() error { var r any; return json.Unmarshal(b, &r) }))
 	orc = append(orc, try(func() error { var r any; return stdjson.Unmarshal(b, &r) }))
@@ -233,6 +304,15 @@ func c05() {
 		jValid([]byte("[1" + ch + "2]"))
 		jValid([]byte("tru" + ch))
 		jValid([]byte("nul" + ch + " "))
+	}
+	// (3b') bytes that other languages (and bytes.TrimSpace) treat as white space but JSON does not, around valid values
+	for _, w := range []string{"\v", "\f", "\u0085", "\u00a0", "\u2028", "\u2029", "\u3000", "\x00", "\x1c", "\x1f", "\ufeff", "\x7f"} {
+		for _, v := range []string{"1", "{}", "[]", "true", "null", "\"s\"", "-0.5e1", "[1,2]", "{\"a\":1}"} {
+			for _, d := range []string{w + v, v + w, w + v + w, " " + w + " " + v, v + " " + w, "[" + w + "1]", "{\"a\":" + w + "1}", "[1" + w + ",2]"} {
+				jValid([]byte(d))
+				jConsumers([]byte(d))
+			}
+		}
 	}
 	// (3c) Decoder framing across buffer refills (streams longer than the first fill)
 	flagHygieneStreams()
